@@ -104,10 +104,36 @@ def bind(chk: Check, tier: str, seed: int):
             recs.append({"obs": obs})
             hpicked.append((m, d, rep))
     emitted_all = list(emitted) + [em for (_, em) in hist for _ in (1, 2)]
+    # decoders with network mapping on whose discovery window has passed (the clock the decoder reads is 11 minutes ahead of their
+    # creation): sources that never claimed are returned, whatever time stamp the format carries in its text
+    import datetime as _dt
+    import nmea2000.decoder as D
+    from ..decoderrun import Clock
+    Clock.offset = _dt.timedelta(0)
+    orig_dt, D.datetime = D.datetime, Clock
+    try:
+        mapped = {f: NMEA2000Decoder(build_network_map=True) for f in FORMATS}
+        Clock.offset = _dt.timedelta(minutes=11)
+        nm = hist[:: max(1, len(hist) // 40)]
+        for (m, d, _), em in nm:
+            obs = {}
+            for f in FORMATS:
+                o = feed(f, em[f], mapped[f])
+                if o["_m"] is not None:
+                    mm = o["_m"]
+                    o["msg"] = proj(mm, by_id.get(mm.id), raw_by_id.get(mm.id))
+                del o["_m"]
+                obs[f] = o
+            recs.append({"obs": obs})
+            hpicked.append((m, d, 3))
+        emitted_all += [em for (_, em) in nm]
+    finally:
+        D.datetime = orig_dt
+        Clock.offset = _dt.timedelta(0)
     v = run_wire("C07", recs, wd, "c07")
     chk.gate(v["n"] == len(recs), "C07 verdicts incomplete")
     chk.add(history_pass_records=len(recs) - n_fresh)
-    picked = list(picked) + [(m, d, None) for m, d, _ in hpicked]
+    picked = list(picked) + [(m, d, rep) for m, d, rep in hpicked]
     emitted = emitted_all
     for b in v["bad"]:
         m, d, _ = picked[b["k"] - 1]
@@ -116,7 +142,7 @@ def bind(chk: Check, tier: str, seed: int):
                "actiL": "actisense"}.get(fmt, fmt)
         kind = "fast" if m["fast"] else "single"
         short = "/short" if m["fast"] and len(m["payload"]) <= 8 else ""
-        hist_tag = "/sent-again" if b["k"] > n_fresh else ""
+        hist_tag = ("/network-map" if picked[b["k"] - 1][2] == 3 else "/sent-again") if b["k"] > n_fresh else ""
         chk.violation(f"{b['v']['c']}/{fam}/{kind}{short}{hist_tag}",
                       f"{d['id']} (PGN {m['pgn']}, {len(m['payload'])} bytes, {kind}) through {fmt}: {b['v']['c']} "
                       f"{recs[b['k'] - 1]['obs'][fmt]['err']}",
